@@ -209,12 +209,57 @@ var hashes = []string{"", "aa11", "bb22"}
 func smallArts(rng *Rng, paths []string) map[string]any {
 	m := map[string]any{}
 	for _, p := range paths {
-		h := hashes[rng.Intn(3)]
-		if h != "" {
-			m[p] = map[string]any{"sha256": h}
+		// hash objects over differing ALGORITHM SETS too: equal digests on the shared algorithms
+		// must not make two objects with different algorithm sets "equal" (seeded change c03-match-hash-subset)
+		switch rng.Intn(12) {
+		case 0, 1, 2:
+		case 3, 4, 5:
+			m[p] = map[string]any{"sha256": "aa11"}
+		case 6, 7:
+			m[p] = map[string]any{"sha256": "bb22"}
+		case 8, 9:
+			m[p] = map[string]any{"sha256": "aa11", "sha512": "cc33"}
+		case 10:
+			m[p] = map[string]any{"sha512": "cc33"}
+		default:
+			m[p] = map[string]any{}
 		}
 	}
 	return m
+}
+
+// perturbHash returns a hash object that differs from h in exactly one respect: one more
+// algorithm, one algorithm less, one digest changed, or emptied
+func perturbHash(rng *Rng, h any) any {
+	hm, ok := h.(map[string]any)
+	if !ok {
+		return map[string]any{"sha256": "aa11"}
+	}
+	c := map[string]any{}
+	for k, v := range hm {
+		c[k] = v
+	}
+	keys := sortedKeys(c)
+	switch rng.Intn(4) {
+	case 0:
+		if _, has := c["sha512"]; has {
+			c["sha384"] = "dd44"
+		} else {
+			c["sha512"] = "cc33"
+		}
+	case 1:
+		if len(keys) > 0 {
+			delete(c, keys[rng.Intn(len(keys))])
+		}
+	case 2:
+		if len(keys) > 0 {
+			k := keys[rng.Intn(len(keys))]
+			c[k] = str(c[k]) + "0"
+		}
+	default:
+		return map[string]any{}
+	}
+	return c
 }
 
 func ruleFeat(rules []any) string {
@@ -413,7 +458,11 @@ func genRulesCase(rng *Rng, unclean bool) Case {
 		if lt, ok := links["t"].(map[string]any); ok {
 			if mt, ok := lt["materials"].(map[string]any); ok {
 				pm := map[string]any{}
-				for k, v := range mt {
+				for _, k := range sortedKeys(mt) {
+					v := mt[k]
+					if rng.Chance(20) {
+						v = perturbHash(rng, v)
+					}
 					if rng.Chance(80) {
 						pm["d/"+k] = v
 					} else {
@@ -517,4 +566,13 @@ func genRuleTokens(rng *Rng) []any {
 	default:
 		return []any{}
 	}
+}
+
+func sortedKeys(m map[string]any) []string {
+	ks := make([]string, 0, len(m))
+	for k := range m {
+		ks = append(ks, k)
+	}
+	sort.Strings(ks)
+	return ks
 }
